@@ -558,6 +558,28 @@ def run_case(kind, p):
                           peak_elevations=np.asarray(elev, dtype=np.float64).copy(),
                           zero=tuple(float(v) for v in p["start_zero"]), a=tuple(float(v) for v in p["start_a"]),
                           b=list(float(v) for v in p["start_b"]))))
+                # integer pixel positions only (what `centers` is documented to be: no refined positions given), elevations that are
+                # not whole numbers: the same match as with the same positions as floats
+                ipts = np.round(pts)
+                if np.isfinite(ipts).all() and np.abs(ipts).max(initial=0) < 30000:
+                    fkw = dict(zero=np.asarray(p["start_zero"], dtype=float).copy(), a=np.asarray(p["start_a"], dtype=float).copy(),
+                               b=np.asarray(p["start_b"], dtype=float).copy())
+                    try:
+                        mk_ = lambda: grm.Matcher(tolerance=p["tol"], min_weight=p["min_weight"], min_match=p["min_match"])   # noqa: E731
+                        rf = mk_().fastmatch(centers=ipts.copy(), refineds=ipts.copy(), peak_values=np.ones(len(pts)),
+                                             peak_elevations=np.asarray(elev, dtype=np.float64).copy(), **fkw)
+                        for idt in ("int64", "int16", "int32"):
+                            ri = mk_().fastmatch(centers=ipts.astype(idt), peak_values=np.ones(len(pts)),
+                                                 peak_elevations=np.asarray(elev, dtype=np.float64).copy(), **fkw)
+                            if is_invalid(ri) != is_invalid(rf) or (not is_invalid(ri) and (
+                                    not np.array_equal(ri.selector, rf.selector)
+                                    or np.abs(np.concatenate([ri.zero, ri.a, ri.b]) - np.concatenate([rf.zero, rf.a, rf.b])).max() > 1e-9)):
+                                msgs.append(f"fastmatch with {idt} pixel positions (no refined positions) differs from the match with the "
+                                            f"same positions as floats: {'invalid' if is_invalid(ri) else np.concatenate([ri.zero, ri.a, ri.b]).tolist()} vs "
+                                            f"{'invalid' if is_invalid(rf) else np.concatenate([rf.zero, rf.a, rf.b]).tolist()}")
+                                break
+                    except Exception as e:      # noqa: BLE001
+                        msgs.append(f"fastmatch with integer pixel positions raised {type(e).__name__}: {e}")
                 for what, kw_ in variants:
                     try:
                         rr = grm.Matcher(tolerance=p["tol"], min_weight=p["min_weight"], min_match=p["min_match"]).fastmatch(**kw_)
